@@ -65,6 +65,7 @@ mod distinct;
 mod distinct2;
 mod distinct3;
 mod gen;
+mod reject;
 mod walk;
 
 pub struct Ctx {
@@ -268,6 +269,9 @@ fn run(cfg: &Config, s: &mut Session) {
     }
     if only.is_empty() || only == "dx" {
         distinct::run(cfg, s, &mut cx);
+    }
+    if only.is_empty() || only == "mr" {
+        reject::run(cfg, s, &mut cx);
     }
     if only.is_empty() {
         // every generator family the inventory tie (translate/handwritten_write_cover.json) relies on must have
